@@ -63,12 +63,14 @@ Bad(r) ==
     \cup chk("hp", LAMBDA v : \A a, b \in Nodes(g) : v[a + 1][b + 1] = (b \in R[a]))
     \cup chk("hp2", LAMBDA v : \A a, b \in Nodes(g) : v[a + 1][b + 1] = (b \in R[a]))
     \cup chk("hp3", LAMBDA v : \A a, b \in Nodes(g) : v[a + 1][b + 1] = (b \in R[a]))
+    \cup chk("hp4", LAMBDA v : \A a, b \in Nodes(g) : v[a + 1][b + 1] = (b \in R[a]))   \* workspace grown from a smaller, used graph
     \cup chk("cycd", LAMBDA v : v = HasDirCycle(g))
     \cup chk("cycu", LAMBDA v : v = HasUndCycle(g))
     \cup chk("bip", LAMBDA v : \A s \in Nodes(g) : v[s + 1] = Bipartite(g, s))
     \cup chk("topo", LAMBDA v : TopoOK(g, v))
     \cup chk("topo2", LAMBDA v : TopoOK(g, v))
     \cup chk("topo3", LAMBDA v : TopoOK(g, v))
+    \cup chk("topo4", LAMBDA v : TopoOK(g, v))
     \cup chk("cond", LAMBDA v : CondOK(g, R, v, FALSE))
     \cup chk("conda", LAMBDA v : CondOK(g, R, v, TRUE))
 
